@@ -60,8 +60,11 @@ func checkValue(val string) bool {
 
 func checkKeyRemain(key string) bool {
 	// ( lcalpha / DIGIT / "_" / "-"/ "*" / "/" )
-	for _, v := range key {
-		if isAlphaNum(byte(v)) {
+	// Iterate over bytes, not runes: converting a multi-byte rune to a byte
+	// would let non-ASCII characters alias ASCII letters and digits.
+	for i := 0; i < len(key); i++ {
+		v := key[i]
+		if isAlphaNum(v) {
 			continue
 		}
 		switch v {
